@@ -408,7 +408,7 @@ func (idx *indexer) resume() {
 	idx.stateCond.L.Lock()
 	idx.state = running
 	idx.ctx, idx.cancelFunc = context.WithCancel(context.Background())
-	go idx.doIndexing()
+	go idx.doIndexing(idx.ctx)
 	idx.stateCond.L.Unlock()
 
 	idx.store.notify(Info, true, "indexing in progress at '%s'", idx.store.path)
@@ -455,7 +455,9 @@ func (idx *indexer) Pause() {
 	idx.stateCond.L.Unlock()
 }
 
-func (idx *indexer) doIndexing() {
+// doIndexing runs until ctx, the context of this very run, is cancelled: a goroutine that was stopped must not
+// carry on under the context installed by a later resume
+func (idx *indexer) doIndexing(ctx context.Context) {
 	committedTxID := idx.store.LastCommittedTxID()
 	idx.metricsLastCommittedTrx.Set(float64(committedTxID))
 
@@ -471,8 +473,8 @@ func (idx *indexer) doIndexing() {
 
 		erroredThisIter := false
 
-		err := idx.store.commitWHub.WaitFor(idx.ctx, lastIndexedTx+1)
-		if idx.ctx.Err() != nil || errors.Is(err, watchers.ErrAlreadyClosed) {
+		err := idx.store.commitWHub.WaitFor(ctx, lastIndexedTx+1)
+		if ctx.Err() != nil || errors.Is(err, watchers.ErrAlreadyClosed) {
 			return
 		}
 		if err != nil {
@@ -490,7 +492,7 @@ func (idx *indexer) doIndexing() {
 
 		idx.stateCond.L.Lock()
 		for {
-			if idx.state == stopped {
+			if idx.state == stopped || ctx.Err() != nil {
 				idx.stateCond.L.Unlock()
 				return
 			}
